@@ -527,6 +527,25 @@ namespace chaiscript {
         }
 #endif
 
+        if ((loc & static_cast<uint_fast32_t>(Loc::is_local)) != 0u) {
+          // The hint records where the name was found the last time this node was evaluated. The
+          // same code can run under a differently arranged frame (a local introduced by eval(),
+          // a lambda called as a free function and as an attribute), so the slot is only used
+          // if it exists and still holds that name; otherwise the name is looked up again.
+          auto &stack = get_stack_data(t_holder);
+          const auto scope_distance = static_cast<std::size_t>((loc & static_cast<uint_fast32_t>(Loc::stack_mask)) >> 16);
+          const auto index = static_cast<std::size_t>(loc & static_cast<uint_fast32_t>(Loc::loc_mask));
+
+          if (scope_distance < stack.size()) {
+            auto &scope = stack[stack.size() - 1 - scope_distance];
+            if (index < scope.size() && (scope.begin() + static_cast<std::ptrdiff_t>(index))->first == name) {
+              return scope.at_index(index);
+            }
+          }
+
+          loc = 0;
+        }
+
         if (loc == 0) {
           auto &stack = get_stack_data(t_holder);
 
@@ -543,11 +562,6 @@ namespace chaiscript {
           }
 
           t_loc = static_cast<uint_fast32_t>(Loc::located);
-        } else if ((loc & static_cast<uint_fast32_t>(Loc::is_local)) != 0u) {
-          auto &stack = get_stack_data(t_holder);
-
-          return stack[stack.size() - 1 - ((loc & static_cast<uint_fast32_t>(Loc::stack_mask)) >> 16)].at_index(
-              loc & static_cast<uint_fast32_t>(Loc::loc_mask));
         }
 
         // Is the value we are looking for a global or function?
